@@ -41,6 +41,12 @@ CHECKS = {
          "bits are choice variables the solver enumerates exhaustively), one operation, a second lookup, against a reference model whose "
          "unwraps-to / named-by relations are hand-written tables; the representation invariant is assumed before and asserted after, so "
          "histories of any length are covered.", "4/C16", "CrossHair/z3 exhaustive exploration of choice variables (bounded model checking of one inductive step), native replay"),
+ "C04": ("E2 kernel-to-z3 for the duration writer: serdes.isoformat's AST is re-translated on every run into guarded text templates; for "
+         "each of the 24 template paths z3 decides 'the text denotes exactly the input' and strict ISO 8601 well-formedness over every "
+         "timedelta with |total| < 2**31 s (microseconds) / < 2**53 s (whole seconds); z3 5.1 and the z3 4.8.12 binary must agree; the "
+         "encoding and the pendulum environment model are validated against the real code on a boundary grid each run. Numeric<->temporal "
+         "conversions and text parse-back (C / Rust parsers) are choice-symbolic over boundary pick-lists, cold and cache-warmed.",
+         "4/C04", "AST-to-z3 translation of the real isoformat (unsat = holds on the whole domain), solver diff, CrossHair choice exploration, native replay"),
 }
 NA = {
  "C17": "flat catalogue of CPython type objects compared with CPython's own issubclass/typing internals: neither side can be encoded for a solver and there is no value, shape, state or history to make symbolic (DESIGN.md section 7)",
